@@ -1,0 +1,17 @@
+//go:build verif
+
+// Contracts for the gvc verifier (see /verif/DESIGN.md). Comment-only file: it adds no code.
+package gabi
+
+//@ pred wfparams(pp) := pp.Le >= 1 && pp.Le <= 65536 && pp.Lm <= 65536 && pp.LmCommit <= 65536 && pp.LeCommit <= 65536 && pp.LvPrimeCommit <= 65536 && pp.LvCommit <= 65536
+//@ pred wfpk(pk) := pk != nil && pk.N != nil && pk.Z != nil && pk.S != nil && pk.Params != nil && len(pk.R) >= 1 && (forall i in 0..len(pk.R) :: pk.R[i] != nil) && val(pk.N) > 1 && wfparams(pk.Params)
+
+//@ func (*ProofD).correctResponseSizes
+//@   property C01 C08
+//@   requires wfpk(pk) && p != nil && p.EResponse != nil
+//@   requires forall k in dom(p.AResponses) :: p.AResponses[k] != nil
+//@   ensures ranges: result ==> forall k in dom(p.AResponses) :: 0 <= val(p.AResponses[k]) && val(p.AResponses[k]) <= pow2(pk.Params.LmCommit+1)-1
+//@   ensures erange: result ==> 0 <= val(p.EResponse) && val(p.EResponse) <= pow2(pk.Params.LeCommit+1)-1
+//@   modifies nothing
+//@   loop 0 invariant forall k in dom(p.AResponses) :: seen(k) ==> 0 <= val(p.AResponses[k]) && val(p.AResponses[k]) <= pow2(pk.Params.LmCommit+1)-1
+//@   mustfail canary: result
